@@ -13,7 +13,9 @@ THEORIES = ['theories/L5Cover/BoxesProofs.vo',
             'theories/L5Cover/MinCoverProofs.vo',
             'theories/L5Cover/MinCoverBounded.vo',
             'theories/L5Cover/MinCoverBounded3L.vo',
-            'theories/L5Cover/MinCoverBounded4.vo']
+            'theories/L5Cover/MinCoverBounded4.vo',
+            'theories/L5Cover/BoundsProofs.vo',
+            'theories/L5Cover/FloorLitProofs.vo']
 
 HEADER = cq.HEADER + 'From Omega Require Import L5Cover.MinCover.\n'
 
@@ -299,7 +301,7 @@ def search(ctx, broken, mismatches):
         if f:
             small = shrink(m.case)
             return [failing_of(small) or f]
-    budget = 3000 if ctx.thorough else 600
+    budget = 1500 if ctx.thorough else 200
     jobs = []
     for i in range(budget):
         r = ctx.rng.random()
